@@ -201,6 +201,8 @@ type Engine struct {
 	callDepth   int
 	Deadline    time.Time
 	axioms      map[string]bool
+	globalByID  map[int]*ssa.Global
+	initSets    map[*ssa.Global]bool
 }
 
 // extraIntrinsics lets per-property files (intr_*.go) register intrinsics from an init function.
@@ -523,6 +525,10 @@ func (e *Engine) globalObj(st *State, g *ssa.Global) int {
 	}
 	id := 1000000 + len(e.globals)
 	e.globals[g] = id
+	if e.globalByID == nil {
+		e.globalByID = map[int]*ssa.Global{}
+	}
+	e.globalByID[id] = g
 	if e.gheap == nil {
 		e.gheap = map[int]Value{}
 	}
@@ -539,11 +545,57 @@ func (e *Engine) load(st *State, p PtrVal) Value {
 	if !ok {
 		if g, ok2 := e.gheap[p.Obj]; ok2 {
 			obj = g
+			// a global nobody wrote yet: its zero value is only right if its package's initialiser (which was
+			// skipped for foreign, non-executed packages) would not have set it (e.g. io.EOF, unicode tables)
+			if gl := e.globalByID[p.Obj]; gl != nil && !e.InitMode && e.skippedInitSets(gl) {
+				unsupported("read of %s, which its package initialiser sets but the engine does not run (add an intrinsic)", gl)
+			}
 		} else {
 			panic(fmt.Sprintf("dangling object %d", p.Obj))
 		}
 	}
 	return getPath(obj, p.Path)
+}
+
+// skippedInitSets reports whether g belongs to a foreign package whose initialiser is not executed although it
+// stores to g (directly or into one of its fields/elements).
+func (e *Engine) skippedInitSets(g *ssa.Global) bool {
+	if v, ok := e.initSets[g]; ok {
+		return v
+	}
+	if e.initSets == nil {
+		e.initSets = map[*ssa.Global]bool{}
+	}
+	res := false
+	if g.Pkg != nil && !strings.HasPrefix(g.Pkg.Pkg.Path(), "github.com/cloudflare/pint") {
+		if initFn := g.Pkg.Func("init"); initFn != nil && !e.executable(initFn) {
+			var root func(v ssa.Value) ssa.Value
+			root = func(v ssa.Value) ssa.Value {
+				switch x := v.(type) {
+				case *ssa.FieldAddr:
+					return root(x.X)
+				case *ssa.IndexAddr:
+					return root(x.X)
+				}
+				return v
+			}
+			for _, m := range g.Pkg.Members {
+				f, isFn := m.(*ssa.Function)
+				if !isFn || !strings.HasPrefix(f.Name(), "init") {
+					continue
+				}
+				for _, b := range f.Blocks {
+					for _, in := range b.Instrs {
+						if st, isStore := in.(*ssa.Store); isStore && root(st.Addr) == ssa.Value(g) {
+							res = true
+						}
+					}
+				}
+			}
+		}
+	}
+	e.initSets[g] = res
+	return res
 }
 
 func (e *Engine) store(st *State, p PtrVal, v Value) {
